@@ -10,8 +10,8 @@ CLAIMS = {
          "Coq kernel; TcpNet composition mirrors the harness (tick = flush + advance_time, last read at deletion), not tcp_session.rs; one incarnation per endpoint pair."),
  "C02": ("proof", "Socket receive side modelled from socket.rs: recv(n) <= n, conservation of bytes across reads and pushes, accept replay, datagram wholeness, stream = concatenation of writes UNDER the explicit FIFO hand-off hypothesis (and a permutation without it) proved; unit lock-step of recv/recv_msg plus full-stack child-process scenarios (TCP/UDP sockets, loss/dup/jitter plans, both runtime flavours) validated by the extracted validators. Write reordering on the multi_thread runtime: recorded known finding.",
          "Coq kernel; tokio scheduling, real time and TCP/IP internals below the socket are not modelled (C01/C04)."),
- "C03": ("proof", "C03_edges: for every TCB state and EVERY segment each operation moves along the RFC 9293 state diagram (table pinned by C03_edge_table), close/timer/emit/send/receive characterised, deletions only by RST or the final ACK; C03_sync and C03_data_before_fin proved for every closed-system trace (corollaries of the C01 invariant). Release of both endpoints after closes is checked by the harness on loss-free tails (partial).",
-         "Coq kernel; session table of tcp.rs outside the model; ghost SYNs only covered by the per-step theorems."),
+ "C03": ("proof", "C03_edges: for every TCB state and EVERY segment each operation moves along the RFC 9293 state diagram (table pinned by C03_edge_table), close/timer/emit/send/receive characterised, deletions only by RST or the final ACK; C03_sync and C03_data_before_fin proved for every closed-system trace (corollaries of the C01 invariant). The session table and listen bindings of tcp.rs (open/listen/demux, closed-port reply) are a second Coq model (Model/TcpDemux.v, 19 theorems: unique session per endpoint pair, SYN creates exactly one session, exact before wildcard, no binding -> no session and at most one RFC reset) tied by full-stack trace validation. Release of both endpoints after closes is checked by the harness on loss-free tails (partial).",
+         "Coq kernel; ghost SYNs only covered by the per-step theorems; sessions are never removed from the table of tcp.rs (observed, C03c_sessions_never_removed)."),
  "C04": ("proof", "UDP/IPv4 listen tables and the receive pipeline as a Coq model: exact-wins, soundness of lookup (never another port or another specific address), rebind refusal, end-to-end payload/endpoints, unbound dropped, order-insensitivity proved for all binding tables; the real stack is tied by trace validation (child-process scenarios, complete event list checked by the extracted validator with a proved soundness lemma) plus an independent Rust oracle. Partial for arrival orders on the real runtime (tokio scheduling, ARP resolution not modelled).",
          "Coq kernel; datagrams are records (codec round trips are C08); bindings static while datagrams are in flight."),
  "C05": ("proof", "Link model (tap allocation, MTU test, unicast/broadcast routing, single-server throughput + latency timing) with routing, MTU, MAC-distinctness (induction over attach), exactly-once, latency and throughput bounds proved; every recorded trace of the real Network/Pci (virtual time, exact instants) is checked by the extracted validator (soundness proved). Partial: tokio scheduling and Notify order are only exercised.",
